@@ -33,6 +33,8 @@ KIND_OF_CLASS = {
     'MeshLine1': 'line', 'MeshTri1': 'tri', 'MeshQuad1': 'quad', 'MeshTet1': 'tet',
     'MeshHex1': 'hex', 'MeshWedge1': 'wedge', 'MeshTri2': 'tri', 'MeshQuad2': 'quad',
     'MeshTet2': 'tet', 'MeshHex2': 'hex',
+    # periodic ("discontinuous topology") classes: t is the identified connectivity, p holds per-cell geometry nodes
+    'MeshLine1DG': 'line', 'MeshTri1DG': 'tri', 'MeshQuad1DG': 'quad', 'MeshHex1DG': 'hex',
 }
 
 
